@@ -76,7 +76,7 @@ async def one_exchange(client, url, method, peer, resp_index, settle_iterations=
 
 
 def run_sequence(responses, host='h.test', port=80, scheme='http', recorder_setup=None, settle=12,
-                 client_kwargs=None, per_exchange_hook=None, read_timeout=None):
+                 client_kwargs=None, per_exchange_hook=None, read_timeout=None, rate_limited=False):
     '''responses: list of dicts with 'pieces', 'then', 'method'.  Returns (outcomes, peer, net).'''
     from wpull.network.pool import ConnectionPool
     from wpull.protocol.http.client import Client
@@ -86,11 +86,17 @@ def run_sequence(responses, host='h.test', port=80, scheme='http', recorder_setu
         try:
             peer = netsim.HTTPScriptPeer(responses, settle=settle)
             net.add_peer('127.0.0.1', port, peer)
-            if read_timeout:
+            if read_timeout or rate_limited:
                 import functools
                 from wpull.network.connection import Connection
-                pool = ConnectionPool(resolver=netsim.StaticResolver(),
-                                      connection_factory=functools.partial(Connection, timeout=read_timeout))
+                kw = {}
+                if read_timeout:
+                    kw['timeout'] = read_timeout
+                if rate_limited:
+                    # --limit-rate with a limit far above anything the simulation delivers: only the code path differs
+                    from wpull.network.bandwidth import BandwidthLimiter
+                    kw['bandwidth_limiter'] = BandwidthLimiter(10 ** 12)
+                pool = ConnectionPool(resolver=netsim.StaticResolver(), connection_factory=functools.partial(Connection, **kw))
             else:
                 pool = ConnectionPool(resolver=netsim.StaticResolver())
             client = Client(connection_pool=pool, **(client_kwargs or {}))
